@@ -60,7 +60,7 @@ CHECKS = {
         "technique": "deterministic simulation of the buffer owner with injected grow() outcomes: exhaustive fault-sequence enumeration on small spaces + seeded sampling + Miri",
         "level_claimed": {
             "category": "fault_enumeration",
-            "text": "The foreign buffer owner (grow/flush callbacks, allocation, relocation) is simulated; every grow() outcome is a fault decision taken from the trace. For chunk sequences over {0,1,2,3,5} bytes up to length 5 (6 thorough), capacities 1..8 and fixed buffers 1..12 the complete tree of grow-outcome vectors actually requested by the code is enumerated; beyond that swarm-configured traces are sampled from VERIF_SEED. After every operation a reference model (bytes, cap, sticky flag) driven by the observed grow calls is compared with the real struct; overruns are caught by canaries/never-written filler/poisoned released buffers natively and by Miri on exact-size allocations. A clean batch is evidence over the explored space, not a proof.",
+            "text": "The foreign buffer owner (grow/flush callbacks, allocation, relocation) is simulated; every grow() outcome is a fault decision taken from the trace. For operation sequences over chunks of {0,1,2,3,5} bytes and a single-character write_char, up to length 5 (6 thorough), capacities 1..8 and fixed buffers 1..12 the complete tree of grow-outcome vectors actually requested by the code is enumerated; beyond that swarm-configured traces are sampled from VERIF_SEED. After every operation a reference model (bytes, cap, sticky flag) driven by the observed grow calls is compared with the real struct; overruns are caught by canaries/never-written filler/poisoned released buffers natively and by Miri on exact-size allocations. A clean batch is evidence over the explored space, not a proof.",
             "design_ref": "DESIGN.md §5",
         },
         "level_note": "Trusted: the simulator's owner is honest (grow gives >= requested or fails without side effects); rustc/Miri semantics; the #[repr(C)] mirror of DiplomatWrite is self-tested against diplomat_simple_write at start-up. Not covered: allocation failure inside the Rust-owned writer (aborts).",
